@@ -147,7 +147,7 @@ pub fn gen_ops(r: &mut Rng, mix: &Mix) -> Vec<Op> {
                         rule_names.push(h.clone());
                     }
                     let body = r.pick(RULE_BODIES).replace("{h}", &h);
-                    ops.push(Op::RegisterRule { kg, text: format!("+{body}") });
+                    ops.push(Op::RegisterRule { kg, text: body });
                 }
                 3 => ops.push(Op::DropRule { kg, name: format!("d{}", r.below(3)) }),
                 4 => ops.push(Op::ClearRule { kg, name: format!("d{}", r.below(3)) }),
@@ -331,4 +331,132 @@ pub fn c12_random(seed: u64) -> Case {
         cfg.buffer_size = *rw.pick(&[1usize, 2]);
     }
     Case { seed, cfg, ops, check_model: true, ..Default::default() }
+}
+
+// ------------------------------------------------------------------------------------------ C13
+
+/// Histories for crash testing: data + maintenance + relation/KG drops, immediate durability.
+pub fn c13_history(seed: u64) -> Case {
+    let mut rc = Rng::new(seed, P_CFG);
+    let mut rw = Rng::new(seed, P_WORK);
+    let mut mix = Mix::data_only();
+    mix.kgs = vec!["default".into(), "a".into()];
+    mix.rels = vec!["r".into(), "s".into()];
+    mix.n_tuples = 3;
+    mix.min_ops = 2;
+    mix.max_ops = 8;
+    mix.w_insert = 10;
+    mix.w_delete = 6;
+    mix.w_save = 5;
+    mix.w_compact = 4;
+    mix.w_restart = 1;
+    mix.w_create_kg = 2;
+    mix.w_drop_kg = 2;
+    mix.w_drop_rel = 2;
+    let ops = gen_ops(&mut rw, &mix);
+    let mut cfg = swarm_cfg(&mut rc, true);
+    if rw.chance(1, 2) {
+        cfg.buffer_size = *rw.pick(&[1usize, 2, 3]);
+    }
+    Case { seed, cfg, ops, check_model: true, ..Default::default() }
+}
+
+/// Post-crash operations (latent damage + bounded liveness): delete a tuple that may have been
+/// recovered, re-insert, delete again, clean restart, fresh insert, probe through the query
+/// pipeline, clean restart.
+pub fn post_ops_standard() -> Vec<Op> {
+    let kg = "default".to_string();
+    let r = "r".to_string();
+    vec![
+        Op::Delete { kg: kg.clone(), rel: r.clone(), tuples: vec![int_tuple(1, 2)] },
+        Op::Insert { kg: kg.clone(), rel: r.clone(), tuples: vec![int_tuple(1, 2), int_tuple(2, 4)] },
+        Op::Delete { kg: kg.clone(), rel: r.clone(), tuples: vec![int_tuple(2, 4)] },
+        Op::Restart,
+        Op::Insert { kg: kg.clone(), rel: r.clone(), tuples: vec![int_tuple(9, 9)] },
+        Op::Probe,
+        Op::Restart,
+    ]
+}
+
+// ------------------------------------------------------------------------------------------ C16
+
+pub fn c16_history(seed: u64) -> Case {
+    let mut rc = Rng::new(seed, P_CFG);
+    let mut rw = Rng::new(seed, P_WORK);
+    let mut mix = Mix::data_only();
+    mix.kgs = if rw.chance(1, 2) { vec!["default".into()] } else { vec!["default".into(), "a".into()] };
+    mix.rels = vec!["r".into(), "s".into()];
+    mix.min_ops = 2;
+    mix.max_ops = 8;
+    mix.w_insert = 4;
+    mix.w_delete = 1;
+    mix.w_save = 1;
+    mix.w_compact = 1;
+    mix.w_restart = 2;
+    mix.w_create_kg = if mix.kgs.len() > 1 { 2 } else { 0 };
+    mix.w_drop_kg = 0;
+    mix.w_drop_rel = 0;
+    mix.w_rule = 12;
+    mix.w_schema = 6;
+    let ops = gen_ops(&mut rw, &mix);
+    Case { seed, cfg: swarm_cfg(&mut rc, true), ops, check_model: true, ..Default::default() }
+}
+
+pub fn post_ops_catalog() -> Vec<Op> {
+    let kg = "default".to_string();
+    vec![
+        Op::RegisterRule { kg: kg.clone(), text: "pz(X, Y) <- r(X, Y)".into() },
+        Op::Insert { kg: kg.clone(), rel: "r".into(), tuples: vec![int_tuple(1, 2)] },
+        Op::Restart,
+        Op::DropRule { kg: kg.clone(), name: "pz".into() },
+        Op::Restart,
+    ]
+}
+
+// ------------------------------------------------------------------------------------------ C17
+
+pub fn c17_history(seed: u64) -> Case {
+    let mut rc = Rng::new(seed, P_CFG);
+    let mut rw = Rng::new(seed, P_WORK);
+    let mut mix = Mix::data_only();
+    let pools: [&[&str]; 3] = [&["default", "a", "ab"], &["default", "a", "a_b", "ab"], &["default", "x", "default2"]];
+    mix.kgs = rw.pick(&pools).iter().map(|s| s.to_string()).collect();
+    mix.rels = vec!["r".into(), "s".into()];
+    mix.min_ops = 4;
+    mix.max_ops = 14;
+    mix.w_insert = 10;
+    mix.w_delete = 4;
+    mix.w_save = 2;
+    mix.w_compact = 2;
+    mix.w_restart = 4;
+    mix.w_create_kg = 6;
+    mix.w_drop_kg = 6;
+    mix.w_drop_rel = 2;
+    mix.w_rule = 3;
+    mix.w_schema = 2;
+    let mut ops = gen_ops(&mut rw, &mix);
+    ops.push(Op::Restart);
+    Case { seed, cfg: swarm_cfg(&mut rc, true), ops, check_model: true, ..Default::default() }
+}
+
+// ------------------------------------------------------------------------------------------ C14
+
+/// Base history for the maintenance twin runs: writes and probes only, no maintenance, no restarts.
+pub fn c14_base(seed: u64) -> Case {
+    let mut rw = Rng::new(seed, P_WORK);
+    let mut mix = Mix::data_only();
+    mix.kgs = vec!["default".into()];
+    mix.rels = vec!["r".into(), "s".into()];
+    mix.n_tuples = 4;
+    mix.min_ops = 3;
+    mix.max_ops = 10;
+    mix.w_insert = 10;
+    mix.w_delete = 6;
+    mix.w_save = 0;
+    mix.w_compact = 0;
+    mix.w_restart = 0;
+    mix.w_drop_rel = 1;
+    mix.w_probe = 1;
+    let ops = gen_ops(&mut rw, &mix);
+    Case { seed, cfg: EngineCfg::default(), ops, check_model: true, ..Default::default() }
 }
